@@ -321,4 +321,14 @@ def harness(ctx, C, p):
         return "ok"
     r_rep = api.outcome(lambda: eval(code, dict(ns)))
     ctx.check("repr(%s) = %r denotes the same function" % (text, rp), same_outcome(ctx, r_impl, r_rep))
+    if not uses_obj and ("_" in text.replace("obj_", "").replace("len_", "").replace("sum_", "").replace("min_", "").replace("max_", "").replace("abs_", "") or "lst" in text):
+        # the same expression object evaluated again on the SAME context object after the intermediate containers of its
+        # paths were re-bound: an expression is a function of the context's current content (no memo of earlier lookups)
+        c2 = ctx.int("c2", -R, R)
+        env2 = dict(env, lst=[c2, a, b], **{"_": {"c": c2}})
+        guards(ctx, t, env2)
+        context["_"] = C.Container(c=c2)
+        context["lst"] = [c2, a, b]
+        r2 = api.outcome(lambda: expr(context) if callable(expr) else expr)
+        ctx.check("%s evaluated again after its intermediate containers were re-bound follows the new content" % text, same_outcome(ctx, r2, api.outcome(native, t, env2)))
     return "ok"
